@@ -747,6 +747,7 @@ fn run_case(out: &mut Out, wc: &mut WireCache, kind: &str, c: &Case) {
         Tr::L(frames.iter().map(frame_tr).collect()),
         Tr::L(trace.iter().map(r_tr2).collect()),
         Tr::bool(drained),
+        Tr::n(polled_after_end as u64),
     ]);
     // ---- distribution
     let fam = kind.split('.').next().unwrap_or("c01");
@@ -1546,11 +1547,11 @@ fn main() {
                     run_case(&mut out, &mut wc, "corpus.F-C06a", &Case { server, ..plain.clone() });
                 }
             }
-            if a.thorough {
-                // RESOURCE_EXHAUSTED beyond 4 GiB, for real (address space only)
-                for server in [true, false] {
+            // RESOURCE_EXHAUSTED beyond 4 GiB, for real (address space only)
+            for server in [true, false] {
+                run_4gb(&mut out, server, &[vec![7]], false, &[2], &[0, 1]);
+                if a.thorough {
                     run_4gb(&mut out, server, &[], false, &[], &[]);
-                    run_4gb(&mut out, server, &[vec![7]], false, &[2], &[0, 1]);
                     run_4gb(&mut out, server, &[vec![7], vec![], vec![8, 9]], true, &[2, 3, 1], &[1]);
                 }
             }
